@@ -185,7 +185,7 @@ for name in sorted(os.listdir(S)):
             if len(f) < 5:
                 continue
             cid, seed, rc, rev = f[1], f[2], f[3], f[4]
-            if TAG and not rev.endswith("/" + TAG):
+            if TAG and not any(rev.endswith("/" + t) for t in TAG.split(",")):
                 continue
             key = re.search(r"key: (\S+)", line)
             final[(cid, seed)] = (rc, rev, key.group(1) if key else "")
